@@ -136,6 +136,11 @@ func (sc *scratch) offer(v1 []types.Transaction, v2 []types.V2Transaction, opt o
 		}
 		sealBlock(sc.s, &b)
 	}
+	if sc.ledger != nil && sc.ledger.Forest != nil && sc.ledger.Forest.N() == sc.s.Elements.NumLeaves {
+		for i := range b.V2Transactions() {
+			w.checkTransactionElements(sc, b.V2Transactions()[i])
+		}
+	}
 	snap := w.preValidateProbe(sc.s, b, bs)
 	if p := guard(func() { verr = consensus.ValidateBlock(sc.s, b, bs) }); p != "" {
 		w.violate("C10", "validate-panic", fmt.Sprintf("ValidateBlock panicked on a probe block at height %d: %s", sc.child(), p))
@@ -426,5 +431,59 @@ func (w *World) extrasApplied(n *Node, e *blockEntry, au consensus.ApplyUpdate, 
 	}
 	if first && !w.quiet && w.tape.Chance(w.cfg.ProbePM, 1000) && len(w.cfg.ProbeRows) > 0 {
 		w.runProbes(n)
+	}
+}
+
+// checkTransactionElements: ValidateTransactionElements (what a transaction
+// pool asks before anything else) accepts exactly the transactions whose
+// non-ephemeral parents are leaves of the naive forest - right element hash,
+// right index, unspent, right path.
+func (w *World) checkTransactionElements(sc *scratch, txn types.V2Transaction) {
+	if w.ownViolation() {
+		return
+	}
+	f := sc.ledger.Forest
+	genuine := func(elem types.Hash256, se types.StateElement) bool {
+		if se.LeafIndex == types.UnassignedLeafIndex {
+			return true // ephemeral: not looked at here
+		}
+		if se.LeafIndex >= f.N() || f.Leaves[se.LeafIndex] != ref.LeafHash(elem, se.LeafIndex, false) {
+			return false
+		}
+		return fmt.Sprint(f.Path(se.LeafIndex)) == fmt.Sprint(se.MerkleProof)
+	}
+	want, what := true, ""
+	note := func(ok bool, kind string, id [32]byte) {
+		if !ok && want {
+			want, what = false, fmt.Sprintf("%s parent %x", kind, id[:4])
+		}
+	}
+	for _, in := range txn.SiacoinInputs {
+		note(genuine(ref.SiacoinElemHash(in.Parent.ID, in.Parent.SiacoinOutput, in.Parent.MaturityHeight), in.Parent.StateElement), "siacoin", in.Parent.ID)
+	}
+	for _, in := range txn.SiafundInputs {
+		note(genuine(ref.SiafundElemHash(in.Parent.ID, in.Parent.SiafundOutput, in.Parent.ClaimStart), in.Parent.StateElement), "siafund", in.Parent.ID)
+	}
+	for _, r := range txn.FileContractRevisions {
+		note(genuine(ref.V2FileContractElemHash(r.Parent.ID, r.Parent.V2FileContract), r.Parent.StateElement), "revised contract", r.Parent.ID)
+	}
+	for _, r := range txn.FileContractResolutions {
+		note(genuine(ref.V2FileContractElemHash(r.Parent.ID, r.Parent.V2FileContract), r.Parent.StateElement), "resolved contract", r.Parent.ID)
+		if sp, ok := r.Resolution.(*types.V2StorageProof); ok {
+			note(genuine(ref.ChainIndexElemHash(sp.ProofIndex.ID, sp.ProofIndex.ChainIndex), sp.ProofIndex.StateElement), "proof index", sp.ProofIndex.ID)
+		}
+	}
+	var err error
+	if p := guard(func() { err = sc.s.Elements.ValidateTransactionElements(txn) }); p != "" {
+		w.violate("C10", "validate-elements-panic", p)
+		return
+	}
+	w.stats.Inc("probe.transaction-elements")
+	if (err == nil) != want {
+		if want {
+			w.violate("C04", "transaction-elements-rejected", fmt.Sprintf("ValidateTransactionElements refused (%v) a transaction at height %d all of whose parents are unspent leaves of the forest with their exact paths", err, sc.child()))
+		} else {
+			w.violate("C04", "transaction-elements-accepted", fmt.Sprintf("ValidateTransactionElements accepted a transaction at height %d whose %s is not an unspent leaf of the forest with its exact path", sc.child(), what))
+		}
 	}
 }
